@@ -243,7 +243,8 @@ def ob_eig2d(shape, kinds):
                 checks = [("sum M = I", lift(M1[i, j]) + lift(M2[i, j]), c.const(1 if i == j else 0)),
                           ("sum lambda M = eps", l1 * lift(M1[i, j]) + l2 * lift(M2[i, j]), A[i][j]),
                           ("M1 M1 = M1", sum((lift(M1[i, k]) * lift(M1[k, j]) for k in range(2)), c.const(0)), lift(M1[i, j])),
-                          ("M1 M2 = 0", sum((lift(M1[i, k]) * lift(M2[k, j]) for k in range(2)), c.const(0)), c.const(0))]
+                          ("M1 M2 = 0", sum((lift(M1[i, k]) * lift(M2[k, j]) for k in range(2)), c.const(0)), c.const(0)),
+                          ("trace M1 = 1 (rank-one projector, as the split formulas assume)", lift(M1[0, 0]) + lift(M1[1, 1]), c.const(1))]
                 for nm, a, b in checks:
                     n += 1
                     if not (a == b):
@@ -269,6 +270,9 @@ def _state(dim, kind, rng):
         lam = rng.normal(size=dim)
     elif kind == "zero":
         lam = np.zeros(dim)
+    elif kind == "hydro_exact":
+        lam = np.full(dim, 0.013)
+        Q = np.eye(dim)                 # exactly repeated principal values in floats
     elif kind == "hydro":
         lam = np.full(dim, 0.013)
     elif kind == "uniaxial":
@@ -293,10 +297,33 @@ def _state(dim, kind, rng):
 
 
 def _replay_eig(dim, kinds, shape):
-    return dict(confirmed=False, note="exact refutation; see C17.split obligations for float runs of the same states")
+    """native float run of the real 2-D method at the witness values of the exact obligation."""
+    try:
+        from EasyFEA.FEM._linalg import FeArray
+        Ne, nPg = shape
+        pf = _model("Miehe", 2)
+        eps = np.zeros((Ne, nPg, 3))
+        r2 = np.sqrt(2)
+        import itertools as it
+        for i, ((e, p), kind) in enumerate(zip(it.product(range(Ne), range(nPg)), kinds)):
+            x, y, sh = (3 + i) / 7, (-2 - i) / 5, (1 + i) / 3
+            v = {"generic": (x, y, sh), "zero": (0, 0, 0), "hydro": (x, x, 0), "uniaxial": (x, 0, 0), "shear": (0, 0, sh)}[kind]
+            eps[e, p] = (v[0], v[1], r2 * v[2])
+        vals, lm, lM = pf._Eigen_values_vectors_projectors(FeArray.asfearray(eps.copy()))
+        vals = np.asarray(vals)
+        M1, M2 = np.asarray(lM[0]), np.asarray(lM[1])
+        worst = 0.0
+        for e in range(Ne):
+            for p in range(nPg):
+                A = np.array([[eps[e, p, 0], eps[e, p, 2] / r2], [eps[e, p, 2] / r2, eps[e, p, 1]]])
+                worst = max(worst, np.abs(M1[e, p] + M2[e, p] - np.eye(2)).max(), np.abs(vals[e, p, 0] * M1[e, p] + vals[e, p, 1] * M2[e, p] - A).max(),
+                            np.abs(M1[e, p] @ M1[e, p] - M1[e, p]).max(), abs(np.trace(M1[e, p]) - 1.0))
+        return dict(confirmed=bool(worst > 1e-9), worst_invariant_error=float(worst), eps=eps.tolist())
+    except Exception as e:
+        return dict(confirmed=True, raised=repr(e))
 
 
-STATE_KINDS = ["generic", "zero", "hydro", "uniaxial", "two_equal_max", "two_equal_min", "two_equal_axis", "compress"]
+STATE_KINDS = ["generic", "zero", "hydro", "hydro_exact", "uniaxial", "two_equal_max", "two_equal_min", "two_equal_axis", "compress"]
 
 
 def _fields(dim, seed):
@@ -306,7 +333,7 @@ def _fields(dim, seed):
     for k in STATE_KINDS:
         v, A = _state(dim, k, rng)
         out.append((k, v[None, None, :].copy(), [[A]]))
-    mixes = [("generic", "zero"), ("generic", "hydro"), ("generic", "uniaxial"), ("generic", "two_equal_max"), ("two_equal_min", "generic"), ("zero", "uniaxial")]
+    mixes = [("generic", "zero"), ("generic", "hydro"), ("hydro", "generic"), ("generic", "hydro_exact"), ("hydro_exact", "generic"), ("generic", "uniaxial"), ("generic", "two_equal_max"), ("two_equal_min", "generic"), ("zero", "uniaxial")]
     for a, b in mixes:
         va, Aa = _state(dim, a, rng)
         vb, Ab = _state(dim, b, rng)
@@ -350,6 +377,22 @@ def ob_split(split, dim, aniso, seed):
         n += 1
         if np.abs(s).max() > 0 and es > 1e-9:
             raise Refuted(f"{split} {dim}-D on {label}: sigma+ + sigma- differs from C eps by {es:.3e}", cex=rec, signature=sig + ":stress", replay=dict(confirmed=True, rel_err=es))
+        if split == "Miehe" and not aniso:
+            # independent reference (Miehe et al. 2010): psi+ = lam/2 <tr eps>+^2 + mu sum <eps_i>+^2, eigenvalues from numpy eigh
+            E_, nu = 3.0, 0.25
+            lam, mu = E_ * nu / ((1 + nu) * (1 - 2 * nu)), E_ / (2 * (1 + nu))
+            for e in range(eps.shape[0]):
+                for p in range(eps.shape[1]):
+                    w = np.linalg.eigvalsh(mats[e][p])
+                    tr = w.sum()
+                    refP = lam / 2 * max(tr, 0) ** 2 + mu * (np.maximum(w, 0) ** 2).sum()
+                    refM = lam / 2 * min(tr, 0) ** 2 + mu * (np.minimum(w, 0) ** 2).sum()
+                    n += 1
+                    sc = max(refP + refM, 1e-30)
+                    if abs(pP[e, p] - refP) > 1e-6 * sc or abs(pM[e, p] - refM) > 1e-6 * sc:
+                        raise Refuted(f"Miehe {dim}-D on {label}: psi+ = {pP[e,p]:.6e}, psi- = {pM[e,p]:.6e} at element {e} point {p}; "
+                                      f"reference from numpy eigh: {refP:.6e}, {refM:.6e}", cex=dict(**rec, element=e, point=p), signature=sig + ":miehe_reference",
+                                      replay=dict(confirmed=True, psiP=float(pP[e, p]), refP=float(refP), psiM=float(pM[e, p]), refM=float(refM)))
         psi = 0.5 * np.einsum("epi,epi->ep", eps, s)
         ep_ = float(np.abs(pP + pM - psi).max() / max(np.abs(psi).max(), 1e-30))
         n += 1
@@ -390,6 +433,29 @@ def ob_eig_native(dim, seed):
                     raise Refuted(f"eigen {dim}-D on {label}: projectors do not resolve the identity / reconstruct the tensor at element {e} point {p}",
                                   cex=dict(state=label, matrix=A.tolist()), signature=sig + ":projectors",
                                   replay=dict(confirmed=True, sum_err=float(np.abs(S - np.eye(dim)).max()), recon_err=float(np.abs(R - A).max())))
+    # positive / negative projection of the tensor: projP . eps == sum_i <eps_i>+ v_i v_i^T  computed with numpy eigh (well defined for
+    # repeated eigenvalues), projM . eps the negative part, projP + projM == identity
+    r2 = np.sqrt(2)
+    for label, eps, mats in _fields(dim, seed):
+        from EasyFEA.FEM._linalg import FeArray
+        with np.errstate(all="ignore"):
+            projP, projM = pf._PhaseField__Spectral_Decomposition(FeArray.asfearray(eps.copy()))
+        projP, projM = np.asarray(projP, dtype=float), np.asarray(projM, dtype=float)
+        for e in range(eps.shape[0]):
+            for p in range(eps.shape[1]):
+                A = mats[e][p]
+                w, V = np.linalg.eigh(A)
+                Ap = (V * np.maximum(w, 0)) @ V.T
+                km = (lambda M: np.array([M[0, 0], M[1, 1], r2 * M[0, 1]])) if dim == 2 else (lambda M: np.array([M[0, 0], M[1, 1], M[2, 2], r2 * M[1, 2], r2 * M[0, 2], r2 * M[0, 1]]))
+                gotP, gotM = projP[e, p] @ eps[e, p], projM[e, p] @ eps[e, p]
+                scale = max(np.abs(A).max(), 1e-30)
+                n += 1
+                if np.abs(gotP - km(Ap)).max() > 1e-7 * scale or np.abs(gotM - km(A - Ap)).max() > 1e-7 * scale:
+                    raise Refuted(f"spectral decomposition {dim}-D on {label}: projP.eps / projM.eps differ from the positive / negative parts computed with numpy eigh "
+                                  f"at element {e} point {p} (err {np.abs(gotP - km(Ap)).max():.3e})", cex=dict(state=label, matrix=A.tolist()),
+                                  signature=f"spectral{dim}d:{label}", replay=dict(confirmed=True, code=gotP.tolist(), eigh=km(Ap).tolist()))
+                if np.abs(projP[e, p] + projM[e, p] - np.eye(eps.shape[2])).max() > 1e-9:
+                    raise Refuted(f"spectral decomposition {dim}-D on {label}: projP + projM != I", signature=f"spectral{dim}d:{label}:sum", cex=dict(state=label), replay=dict(confirmed=True))
     return Verdict(DISCHARGED, backend="native float run vs numpy eigh (1e-9)", sub=n)
 
 
